@@ -261,6 +261,36 @@ func (s *scene) ping(from, claim *world.Node, mt frame.MessageType, pingType str
 	return out
 }
 
+// helloRespByOther: the victim opens a hello exchange with x; router z reads the ping ID and the victim's key-exchange
+// share off the wire and answers in its OWN name (its address, its signature).
+func (s *scene) helloRespByOther(x, z *world.Node) []byte {
+	s.ms.W.Inflight = nil
+	s.v.Rt.HelloPing.VerifExpire(x.ID.IP)
+	_, _ = s.v.Rt.HelloPing.Send(x.ID.IP)
+	var id uint64
+	var req router.HelloPingRequest
+	for _, fl := range s.ms.W.Inflight {
+		md := msgData(fl.Data)
+		var hdr router.PingHeader
+		if len(md) > 2 && cbor.Unmarshal(md[2:2+int(md[1])], &hdr) == nil && hdr.PingType == "hello" {
+			id = hdr.PingID
+			_ = cbor.Unmarshal(md[2+int(md[1]):], &req)
+		}
+	}
+	s.ms.W.Inflight = nil
+	if id == 0 {
+		tmp := state.NewEncryptionSession()
+		req.KeyExchange, req.KeyExchangeType, _ = tmp.InitKeyClientStart()
+		id = s.rng.Uint64() | 1
+	}
+	es := state.NewEncryptionSession()
+	kx, kxt, err := es.InitKeyServer(req.KeyExchange, req.KeyExchangeType)
+	if err != nil {
+		panic(err)
+	}
+	return s.ping(z, z, frame.RouterPing, "hello", 0, true, id, &router.HelloPingResponse{KeyExchange: kx, KeyExchangeType: kxt, MTU: 1300})
+}
+
 // genuinePing builds the ping of the given type as router x would send it to the victim.
 func (s *scene) genuinePing(t string, from, claim *world.Node) []byte {
 	r4 := s.node(4).ID.IP
@@ -583,6 +613,12 @@ func run(c *vf.Ctx) {
 			s.forceMT = 0
 			copy(data[8:16], g1[8:16])
 			note = "hop ping made by router " + fmt.Sprint(a.Src%3+1) + " with the time stamp of X's newest frame"
+		case "answered-by-another":
+			// the victim's exchange is with X; router Z answers it in its own name
+			zi := a.Src%3 + 1
+			data = s.helloRespByOther(x, s.node(zi))
+			from = s.via(zi)
+			note = fmt.Sprintf("hello response of router %d, in its own name, echoing the ping ID of the victim's exchange with router %d", zi, a.Src)
 		case "first-badkey":
 			// a ping of the unknown router whose header carries the key of ANOTHER key pair
 			y := s.node(4)
